@@ -15,9 +15,13 @@ META = {
     'technique': 'exhaustive enumeration of error/decision histories on the real Session, compared with a reference interpreter of the retry decisions',
     'text': 'All sequences of up to 3 errors over {read/write timeout, unavailable, overloaded, bootstrapping, server error, '
             'truncate, connection failure} x decision {RETRY, RETRY_NEXT_HOST, RETHROW, IGNORE} x policy-chosen consistency '
-            '{None, ONE, QUORUM}, ended by a success, are replayed on a real 3-host Session (fixed plan): the (host, consistency) '
+            '{None, ANY, QUORUM} (thorough: + ONE), ended by a success, are replayed on a real 3-host Session (fixed plan): the (host, consistency) '
             'of every frame received, the hook and retry_num of every policy call and the final outcome must equal the reference; '
-            'non-idempotent statements with a speculative-execution policy must never produce a second frame.',
+            'non-idempotent statements with a speculative-execution policy must never produce a second frame.  Speculative '
+            'layer: BFS over every order of {speculative timer fires, outstanding attempt i answered with rows or a retryable error '
+            'and each decision} with 1-2 speculative executions (several attempts outstanding on different hosts), a reference '
+            'model advanced with every event: RETRY goes to the host whose attempt failed, RETRY_NEXT_HOST to the next unused host '
+            'of the shared plan, the consistency chosen by the policy is carried by every later frame.',
     'note': 'Executor tasks are run to completion after each event (ordering of tasks is explored by C14). The reference '
             'interpreter is 40 lines in this file and follows the RetryPolicy documentation.',
     'design_ref': 'C16',
@@ -30,7 +34,7 @@ HOOK = {'read_timeout': 'read_timeout', 'write_timeout': 'write_timeout', 'unava
 EXC = {'read_timeout': 'ReadTimeout', 'write_timeout': 'WriteTimeout', 'unavailable': 'Unavailable',
        'overloaded': 'OverloadedErrorMessage', 'bootstrapping': 'IsBootstrappingErrorMessage',
        'server_error': 'ServerError', 'truncate': 'TruncateError', 'fault': 'ConnectionShutdown'}
-CLS = {None: None, 'ONE': 1, 'QUORUM': 4}
+CLS = {None: None, 'ONE': 1, 'QUORUM': 4, 'ANY': 0}
 START_CL = 6   # LOCAL_QUORUM
 
 
@@ -61,7 +65,8 @@ def reference(seq, plan):
 
 def sequences(quick):
     later = ['read_timeout', 'unavailable', 'overloaded', 'fault'] if quick else KINDS
-    cont = [(d, c) for d in ('RETRY', 'RETRY_NEXT_HOST') for c in (None, 'ONE', 'QUORUM')]
+    # ANY has the numeric value 0: a decision carrying it must be honoured like any other level
+    cont = [(d, c) for d in ('RETRY', 'RETRY_NEXT_HOST') for c in ((None, 'ANY', 'QUORUM') if quick else (None, 'ANY', 'ONE', 'QUORUM'))]
     term = [('RETHROW', None), ('IGNORE', None)]
     out = [()]
     for n in (1, 2, 3):
@@ -180,7 +185,132 @@ def run_spec_chunk(cases):
     return part
 
 
+# ---------------------------------------------------------------------- speculative executions (BFS)
+from vt import explore          # noqa: E402
+
+PLAN = ['10.0.0.1', '10.0.0.2', '10.0.0.3']
+
+
+class HS(explore.Harness):
+    """Several attempts of one request outstanding at once (speculative executions): every order of
+    {speculative timer fires, attempt i answered with rows / a retryable error + scripted decision}.
+    A reference model of the decisions is advanced with every event; executor tasks run to completion
+    after each event.  The model stops judging once it says the request is complete."""
+    name = 'c16-spec'
+
+    def init(self):
+        from cassandra import ConsistencyLevel
+        p = self.params
+        st = reqworld.ReqWorld(dict(hosts=3, spec=p['spec'], spec_delay=1.0, timeout=10.0, id0=p.get('id0', False)))
+        st.execute('x', idempotent=True, stmt_kw={'consistency_level': ConsistencyLevel.LOCAL_QUORUM})
+        st.m = {'frames': [(PLAN[0], START_CL)], 'k': 1, 'cl': START_CL, 'retries': 0, 'calls': [], 'done': None,
+                'spec_fired': 0, 'undecided': False}
+        return st
+
+    def events(self, st):
+        p = self.params
+        evs = []
+        if st.m['done'] is not None or st.m['undecided']:
+            return evs
+        pend = st.pending()
+        for i in range(len(pend)):
+            evs.append((('respond', i, 'rows', '', ''), 0))
+            for kind in p['kinds']:
+                for d in ('RETHROW', 'IGNORE'):
+                    evs.append((('respond', i, kind, d, ''), 0))
+                for d in ('RETRY', 'RETRY_NEXT_HOST'):
+                    for cl in p['cls']:
+                        evs.append((('respond', i, kind, d, cl or ''), 0))
+        if st.w.live_timers():
+            evs.append((('timer',), 0))
+        return evs
+
+    def apply(self, st, ev):
+        m = st.m
+        if ev[0] == 'timer':
+            if m['done'] is None:
+                if m['spec_fired'] < self.params['spec']:
+                    m['spec_fired'] += 1
+                    if m['k'] < len(PLAN):
+                        m['frames'].append((PLAN[m['k']], m['cl']))
+                        m['k'] += 1
+                else:
+                    m['done'] = ('error', 'OperationTimedOut')
+            st.w.fire_timer(st.w.live_timers()[0])
+        else:
+            _, i, kind, d, cl = ev
+            cl = cl or None
+            pnd = st.pending()[i]
+            host = pnd.conn.endpoint.address
+            if m['done'] is None:
+                if kind == 'rows':
+                    m['done'] = ('result', 'rows')
+                else:
+                    m['calls'].append((HOOK[kind], m['retries']))
+                    if d == 'RETHROW':
+                        m['done'] = ('error', EXC[kind])
+                    elif d == 'IGNORE':
+                        m['done'] = ('result', 'empty')
+                    else:
+                        m['retries'] += 1
+                        if CLS[cl] is not None:
+                            m['cl'] = CLS[cl]
+                        if d == 'RETRY':
+                            m['frames'].append((host, m['cl']))
+                        elif m['k'] < len(PLAN):
+                            m['frames'].append((PLAN[m['k']], m['cl']))
+                            m['k'] += 1
+                        else:
+                            # plan exhausted while other attempts may still be outstanding
+                            m['done'] = ('error', 'NoHostAvailable')
+            st.retry.next = (d or 'RETHROW', CLS[cl])
+            st.respond(i, kind)
+        guard = 0
+        while st.w.tasks and guard < 50:
+            st.w.run_task(0)
+            st.w.deliver_outbox()
+            guard += 1
+
+    def observed(self, st):
+        f = st.futures[0]
+        frames = [(a, r.get('consistency')) for a, r in st.sent_app_requests() if r['op'] == 'QUERY' and r.get('query') == 'SELECT x']
+        calls = [(h, n) for h, n, _ in st.retry.calls]
+        if not f._event.is_set():
+            out = None
+        elif f._final_exception is not None:
+            out = ('error', type(f._final_exception).__name__)
+        else:
+            out = ('result', 'empty' if not f._final_result else 'rows')
+        return frames, calls, out
+
+    def canon(self, st):
+        m = st.m
+        return (tuple(m['frames']), m['k'], m['cl'], m['retries'], m['done'], m['spec_fired'], self.observed(st),
+                st.pending_canon(), st.timers_canon())
+
+    def check(self, st, part, hist):
+        m = st.m
+        frames, calls, out = self.observed(st)
+        data = {'params': self.params, 'history': hist}
+        part.outcome((m['done'] or ('open', ''), len(frames)))
+        if len(frames) >= 3:
+            part.mark_nontrivial(repr((tuple(frames), tuple(calls))))
+        if frames != m['frames']:
+            which = 'consistency' if [h for h, _ in frames] == [h for h, _ in m['frames']] else 'host'
+            part.violation('C16/spec/frames/%s' % which, 'frames %r, reference %r after %r' % (frames, m['frames'], hist), data)
+        if calls != m['calls']:
+            part.violation('C16/spec/policy-calls', 'policy consulted %r, reference %r after %r' % (calls, m['calls'], hist), data)
+        if out != m['done']:
+            part.violation('C16/spec/outcome/%s' % (m['done'][1] if m['done'] else 'open'),
+                           'outcome %r, reference %r after %r' % (out, m['done'], hist), data)
+
+
 def run(ctx):
+    for name, params, depth in (
+            ('spec1', dict(spec=1, kinds=['overloaded', 'unavailable'], cls=[None, 'ANY']), 4 if ctx.quick else 6),
+            ('spec2', dict(spec=2, kinds=['read_timeout'], cls=[None, 'ONE']), 4 if ctx.quick else 6),
+            ('spec1-id0', dict(spec=1, kinds=['overloaded'], cls=[None], id0=True), 4 if ctx.quick else 5)):
+        explore.bfs(ctx, HS, params, max_depth=depth, label='c16-' + name, max_states=400000 if ctx.thorough else 60000)
     seqs = ctx.rotate(sequences(ctx.quick))
     n = ctx.nproc * 4
     for part in ctx.pmap(run_chunk, [seqs[i::n] for i in range(n) if seqs[i::n]]):
@@ -195,7 +325,9 @@ def run(ctx):
 
 
 def replay(ctx, data):
-    if 'seq' in data:
+    if 'history' in data:
+        part = explore.replay(HS, data['params'], [tuple(e) for e in data['history']])
+    elif 'seq' in data:
         part = run_chunk([tuple(tuple(s) for s in data['seq'])])
     else:
         part = run_spec_chunk([(data['idempotent'], data['spec'])])
